@@ -100,9 +100,10 @@ Definition qc (a : Z) (b : positive) : Qc := Q2Qc (a # b).
 Definition zc (a b : Z) : C := (qc a 1, qc b 1).
 
 (* ---- drivers for the generated cases ---------------------------------------------------------- *)
-Definition qout (x : Qc) : Q := this x.
-Definition cout (z : C) : Q * Q := (qout (fst z), qout (snd z)).
-Definition ket_out (s : ket) : Q * list (Q * Q) := (qout (fst s), map cout (snd s)).
+(* numbers are printed as [numerator; denominator] (Coq would print some Q literals in decimal/hex notation) *)
+Definition qout (x : Qc) : list Z := [Qnum (this x); Zpos (Qden (this x))].
+Definition cout (z : C) : list Z := qout (fst z) ++ qout (snd z).
+Definition ket_out (s : ket) : list Z * list (list Z) := (qout (fst s), map cout (snd s)).
 
 Definition heap0 (cbarg : option (list nat)) : heap * option nat :=
   match cbarg with Some l => ([l], Some 0%nat) | None => ([], None) end.
